@@ -100,7 +100,7 @@ def default_params(rng, ds, variant):
          "nm": variant.get("nm", "brute"), "em": variant.get("em", "dense"),
          "perp": rng.choice([2.0, 3.0, min(4.0, (n - 1) / 3.0)]), "theta": variant.get("theta", 0.0),
          "maxit": 30, "lr": 0.5, "width": rng.choice([1.0, 2.5]), "ts": rng.choice([1, 2, 3]),
-         "speg": variant.get("speg", 1), "spen": 20, "sq": 0.9, "wd": 25}
+         "speg": variant.get("speg", 1), "spen": 20, "sq": 0.9, "wd": 10}
     return p
 
 
@@ -189,15 +189,24 @@ def parse_result(line):
     return None
 
 
+MAX_CRASHES = 4     # per batch: every crash / hang costs a process restart (and up to `wd` seconds)
+
+
 def run_cases(ctx, exe, ds, cases):
-    """returns list of result dicts aligned with cases; a crash / hang / garbage is a result of kind CRASH"""
+    """returns list of result dicts aligned with cases; a crash / hang / garbage is a result of kind CRASH;
+    after MAX_CRASHES crashes the remaining cases of the batch are SKIPPED (the verdict is already there)"""
     results = [None] * len(cases)
     start = 0
     guard = 0
-    while start < len(cases) and guard < 60:
+    while start < len(cases):
         guard += 1
+        if guard > MAX_CRASHES:
+            for i in range(start, len(cases)):
+                if results[i] is None:
+                    results[i] = {"kind": "SKIPPED"}
+            break
         inp = data_line(ds) + "".join(run_line(i, cases[i]) for i in range(start, len(cases)))
-        r = ctx.run(exe, inp, timeout=40 + 30 * min(40, len(cases) - start), env={"OMP_NUM_THREADS": "1"})
+        r = ctx.run(exe, inp, timeout=120 + len(cases) - start, env={"OMP_NUM_THREADS": "1"})
         cur = None
         for line in r.out.splitlines():
             if line.startswith("C "):
@@ -344,6 +353,8 @@ def judge(ctx, ds, cases, results, needs, model, stats):
         enough = set(nd) <= supplied
         stats["outcomes"][r["kind"]] = stats["outcomes"].get(r["kind"], 0) + 1
         tag = "%s/%s/%s/%s/%s" % (c["fam"], c["order"] or "-", c["entry"], c["back"], ds["kind"])
+        if r["kind"] == "SKIPPED" or rf["kind"] == "SKIPPED":
+            continue
         if r["kind"] in ("NOTBUILT", "BADCASE"):
             ctx.mismatch(replay_obj(ds, c), "harness cannot run this chain: " + r["kind"])
             continue
